@@ -219,6 +219,13 @@ class C01(CoreCheck):
     assumptions = ["objects are freed only after their unregister call returned (scenario guard)",
                    "byte-level freedom from stale accesses is observed by ASan on poisoned, individually allocated structs, not proved"]
 
+    def sibling_stages(self):
+        # C01 anchors iv_inotify.c, iv_signal.c and iv_wait.c as well: "no callback / access after unregister" for watches,
+        # signal interests and wait interests is decided by the machinery of C20, C10 and C11 (handler scripts that
+        # unregister self / others / the instance, freed at once, under ASan; their Coq monitors)
+        import c20, c10
+        return [("C20", c20.C20), ("C10", c10.C10), ("C11", c10.C11)]
+
     def gen_cases(self, ctx, rng, n):
         cases = CoreCheck.gen_cases(self, ctx, rng, n)
         # one descriptor ready in several bands in the same iteration; the FIRST handler that runs unregisters the
@@ -506,6 +513,12 @@ class C18(CoreCheck):
     # ---- thread churn on the real kernel (harness/churn.c): the clause "or a thread that used the library exits ...
     # repeated init/use/deinit cycles and thread churn do not grow the process" cannot be exercised by the sequential
     # scenario interpreter; it is observed on real threads under ASan/LSan
+    def sibling_stages(self):
+        # C18 anchors iv_fd_pump.c (cached pump buffers / splice pipes): decided by the C17 machinery (per-case descriptor
+        # and leak accounting of the pump driver)
+        import c17
+        return [("C17", c17.C17)]
+
     CHURN_METHODS = ["", "epoll-timerfd", "epoll-timerfd epoll", "epoll-timerfd epoll ppoll"]
 
     def build(self, ctx):
